@@ -8,9 +8,9 @@ package abandon
 import (
 	"fmt"
 	"reflect"
-	"strings"
 	"runtime"
 	"runtime/metrics"
+	"strings"
 
 	structform "github.com/elastic/go-structform"
 	"github.com/elastic/go-structform/gotype"
